@@ -97,7 +97,8 @@ CHAIN_RULE = ("block histories on the real BaseApp (auth + pos + gov over IAVL/M
               "every operation; non-trivial = distinct (operation kind, mutation, outcome) with a distinct operation text")
 CHAIN_ASSUME = ["signatures are ideal (a signature verifies iff made by the verification key over exactly the checked bytes): cryptographic strength of ed25519 is assumed",
                 "the tx-index lookup of the ante handler answers 'not found' (closed RPC port) unless a check says otherwise",
-                "single fee/stake denomination (upokt); multi-denomination Coins algebra is C18",
+                "two denominations in the model: the staking one (upokt) and one more that only ever moves as part of a fee (balances, supply, fee "
+                "collection and the hand-over to the proposer are modelled for it: Props/Denom2.lean); the general multi-denomination Coins algebra is C18",
                 "Tendermint reports votes only for validators it holds; hostile consensus input (unknown validators, evidence against tombstoned ones) halts BeginBlock by design of the code and is modelled as a halt"]
 CHAIN_TRUSTED = ["go-amino, tendermint/iavl, tm-db (state is decoded with the repo's own codec by the harness)"]
 
@@ -366,3 +367,10 @@ PROPS["C08"]["lean_modules"] = PROPS["C08"]["lean_modules"] + ["Posmint.Props.C0
 PROPS["C08"]["namespaces"] = PROPS["C08"]["namespaces"] + ["Posmint.Props.C08Global"]
 PROPS["C08"]["required_theorems"] = PROPS["C08"]["required_theorems"] + ["Posmint.Props.C08Global." + t for t in
     ("genesis_windowInv", "step_windowInv", "run_windowInv", "counter_always_window_count")]
+
+# the second denomination (fees only): its theorems are part of the properties they serve
+for _p, _req in (("C02", ["supply2_eq_balances2", "run_inv2", "step_inv2", "genesis_inv2"]), ("C03", ["fee2_buys_nothing", "fee2_from_signer"]),
+                 ("C10", ["fees2_to_proposer"]), ("C11", ["readonly_frame2"])):
+    PROPS[_p]["lean_modules"] = PROPS[_p]["lean_modules"] + ["Posmint.Props.Denom2"]
+    PROPS[_p]["namespaces"] = PROPS[_p]["namespaces"] + ["Posmint.Props.Denom2"]
+    PROPS[_p]["required_theorems"] = PROPS[_p]["required_theorems"] + ["Posmint.Props.Denom2." + t for t in _req]
